@@ -33,6 +33,12 @@ def _child(mod, req, scratch, wfd, clients):
             plan = req["plan"]
         ctx = kernel.Ctx(mod.PROP, tier, scratch)
         ctx.clients = clients
+        if getattr(mod, "GC_SEAM", False):
+            # the cyclic garbage collector decides when an abandoned file object is finalised (and flushes what it still
+            # holds): its timing is behind a seam - never automatic, only at the plan's "gc" operations (ctx.gc_point)
+            import gc
+            gc.collect()
+            gc.disable()
         mod.execute(plan, ctx)
         out = {"ok": True, "violations": ctx.violations, "faults": ctx.faults, "probes": ctx.probes,
                "sigs": sorted(ctx.sigs), "compared": ctx.compared, "digest": ctx.log_digest(),
